@@ -27,7 +27,8 @@ Proof. exact T_C01_run_refines. Qed.
 
 (* Without an armed fuse (i.e. when no user callback panics) every outcome is one the reference
    predicts: the only panics are the documented ones it allows (missing key on index, capacity
-   overflow), never a user panic, an assertion or a debug-only check. *)
+   overflow) and the unwrap of the recorded finding D6, never a user panic, an assertion or a
+   debug-only check. *)
 Theorem C01_run_refines_no_fuse : forall c ts w acc,
   0 < cR c -> WInv c w -> w_fuse w = None -> Forall core_op (map t_op ts) ->
   match run c w ts acc with
@@ -43,7 +44,20 @@ Theorem C01_len : forall c w i m,
   rt_len (m_rt m) = N.of_nat (size (rt_abs (m_rt m))).
 Proof. exact T_C01_len. Qed.
 
+(* core_op - the hypothesis of the theorems above - holds of every operation of the model (the
+   whole HashMap / HashSet / entry / raw-entry / rayon / serde surface that is modelled) whose
+   size arguments fit a usize *)
+Theorem C01_every_operation_is_covered : forall o : op,
+  match o with
+  | OReserve _ n | OTryReserve _ n => n <= usize_max
+  | OExtend _ _ hint => hint <= usize_max
+  | OParExtend _ chunks => N.of_nat (length (concat chunks)) < usize_max
+  | _ => True
+  end -> core_op o.
+Proof. exact T_C01_every_operation_is_covered. Qed.
+
 Print Assumptions C01_step_refines.
+Print Assumptions C01_every_operation_is_covered.
 Print Assumptions C01_run_refines.
 Print Assumptions C01_len.
 Print Assumptions C01_run_refines_no_fuse.
